@@ -9,6 +9,9 @@
 //	R2 pool       sync.Pool{New: ...}             -> verifPool{Name: "<var>", New: ...}
 //	R3 map order  range <package map | map field> -> range verifOrdered("<site>", <expr>)
 //	R4 yields     first statement of every func   -> verifYield(<n>)   (optional)
+//	R5 locks      sync.Mutex / sync.RWMutex       -> verifMutex / verifRWMutex (TryLock loop that reports
+//	                                                 "blocked" to the scheduler instead of blocking the
+//	                                                 one running goroutine; no site on the pinned tree)
 //
 // All rewrites keep line numbers (text is spliced inside a line).
 package instrument
@@ -53,7 +56,7 @@ type edit struct {
 // Build parses the tree and writes the overlay. A rule that finds no site is
 // not an error (the check then runs with fewer seams and says so).
 func Build(opt Options) (*Report, error) {
-	rep := &Report{Seams: map[string]int{"R1": 0, "R2": 0, "R3": 0, "R4": 0}, Replaced: map[string]string{}}
+	rep := &Report{Seams: map[string]int{"R1": 0, "R2": 0, "R3": 0, "R4": 0, "R5": 0}, Replaced: map[string]string{}}
 	if err := os.MkdirAll(opt.OutDir, 0o755); err != nil {
 		return nil, err
 	}
@@ -144,6 +147,30 @@ func Build(opt Options) (*Report, error) {
 	}
 
 	yieldN := 0
+	embedded := map[string]bool{}
+	r5done := map[*ast.SelectorExpr]bool{}
+	topNames := map[string]bool{} // package-level identifiers (an alias named Mutex must not collide)
+	for _, file := range files {
+		for _, d := range file.f.Decls {
+			switch x := d.(type) {
+			case *ast.FuncDecl:
+				if x.Recv == nil {
+					topNames[x.Name.Name] = true
+				}
+			case *ast.GenDecl:
+				for _, sp := range x.Specs {
+					switch s := sp.(type) {
+					case *ast.ValueSpec:
+						for _, nm := range s.Names {
+							topNames[nm.Name] = true
+						}
+					case *ast.TypeSpec:
+						topNames[s.Name.Name] = true
+					}
+				}
+			}
+		}
+	}
 	for _, file := range files {
 		var edits []edit
 		timeAlias, syncAlias := "", ""
@@ -161,7 +188,7 @@ func Build(opt Options) (*Report, error) {
 			}
 		}
 		base := filepath.Base(file.path)
-		usedR1, usedR2 := false, false
+		usedR1, usedR2, usedR5 := false, false, false
 		off := func(p token.Pos) int { return fset.Position(p).Offset }
 
 		// R2 needs the variable name: walk value specs.
@@ -233,6 +260,31 @@ func Build(opt Options) (*Report, error) {
 			}
 			ast.Inspect(d, func(n ast.Node) bool {
 				switch x := n.(type) {
+				case *ast.Field:
+					// R5, embedded form: struct{ sync.Mutex } keeps its field name through an alias
+					if len(x.Names) == 0 && syncAlias != "" {
+						if se, ok := x.Type.(*ast.SelectorExpr); ok && (se.Sel.Name == "Mutex" || se.Sel.Name == "RWMutex") {
+							if id, ok := se.X.(*ast.Ident); ok && id.Name == syncAlias && id.Obj == nil && !topNames[se.Sel.Name] {
+								edits = append(edits, edit{off(se.Pos()), off(se.End()) - off(se.Pos()), se.Sel.Name})
+								embedded[se.Sel.Name] = true
+								r5done[se] = true
+								rep.Seams["R5"]++
+								rep.Sites = append(rep.Sites, fmt.Sprintf("R5 %s:%d embedded %s in %s", base, fset.Position(se.Pos()).Line, se.Sel.Name, curFunc))
+								usedR5 = true
+							}
+						}
+					}
+				case *ast.SelectorExpr:
+					// R5: sync.Mutex / sync.RWMutex in any type position -> scheduler-aware locks
+					if syncAlias == "" || r5done[x] || (x.Sel.Name != "Mutex" && x.Sel.Name != "RWMutex") {
+						return true
+					}
+					if id, ok := x.X.(*ast.Ident); ok && id.Name == syncAlias && id.Obj == nil {
+						edits = append(edits, edit{off(x.Pos()), off(x.End()) - off(x.Pos()), "verif" + x.Sel.Name})
+						rep.Seams["R5"]++
+						rep.Sites = append(rep.Sites, fmt.Sprintf("R5 %s:%d %s in %s", base, fset.Position(x.Pos()).Line, x.Sel.Name, curFunc))
+						usedR5 = true
+					}
 				case *ast.CallExpr:
 					if timeAlias == "" || len(x.Args) != 0 {
 						return true
@@ -288,6 +340,9 @@ func Build(opt Options) (*Report, error) {
 		if usedR2 {
 			out = append(out, []byte("\nvar _ "+syncAlias+".Pool\n")...)
 		}
+		if usedR5 {
+			out = append(out, []byte("\nvar _ "+syncAlias+".Once\n")...)
+		}
 		dst := filepath.Join(opt.OutDir, "slog_"+base)
 		if err := os.WriteFile(dst, out, 0o644); err != nil {
 			return nil, err
@@ -297,7 +352,13 @@ func Build(opt Options) (*Report, error) {
 
 	// injected file in package slog
 	inj := filepath.Join(opt.OutDir, "slog_zz_verif_sim.go")
-	if err := os.WriteFile(inj, []byte(injectedSlog), 0o644); err != nil {
+	injected := injectedSlog
+	for _, nm := range []string{"Mutex", "RWMutex"} {
+		if embedded[nm] {
+			injected += "\ntype " + nm + " = verif" + nm + "\n"
+		}
+	}
+	if err := os.WriteFile(inj, []byte(injected), 0o644); err != nil {
 		return nil, err
 	}
 	rep.Replaced[filepath.Join(slogDir, "zz_verif_sim.go")] = inj
@@ -404,6 +465,7 @@ import (
 	"slices"
 	"sync"
 	"time"
+	"unsafe"
 )
 
 // Seams of the deterministic simulator. Every hook is pass-through when nil.
@@ -497,6 +559,93 @@ func verifOrdered[K comparable, V any](site string, m map[K]V) iter.Seq2[K, V] {
 		}
 	}
 }
+
+// VerifLockHook is the lock seam (rule R5): a task that finds a lock taken tells the
+// scheduler instead of blocking the only running goroutine.
+type VerifLockHook interface {
+	// Blocked is called when the lock is held by someone else; true = "try again now",
+	// false = "nobody can help, block for real".
+	Blocked(key uintptr) bool
+	Released(key uintptr)
+}
+
+var VerifLock VerifLockHook
+
+type verifMutex struct{ mu sync.Mutex }
+
+func (m *verifMutex) Lock() {
+	if h := VerifLock; h != nil {
+		for !m.mu.TryLock() {
+			if !h.Blocked(uintptr(unsafe.Pointer(m))) {
+				m.mu.Lock()
+				return
+			}
+		}
+		return
+	}
+	m.mu.Lock()
+}
+
+func (m *verifMutex) TryLock() bool { return m.mu.TryLock() }
+
+func (m *verifMutex) Unlock() {
+	m.mu.Unlock()
+	if h := VerifLock; h != nil {
+		h.Released(uintptr(unsafe.Pointer(m)))
+	}
+}
+
+type verifRWMutex struct{ mu sync.RWMutex }
+
+func (m *verifRWMutex) Lock() {
+	if h := VerifLock; h != nil {
+		for !m.mu.TryLock() {
+			if !h.Blocked(uintptr(unsafe.Pointer(m))) {
+				m.mu.Lock()
+				return
+			}
+		}
+		return
+	}
+	m.mu.Lock()
+}
+
+func (m *verifRWMutex) RLock() {
+	if h := VerifLock; h != nil {
+		for !m.mu.TryRLock() {
+			if !h.Blocked(uintptr(unsafe.Pointer(m))) {
+				m.mu.RLock()
+				return
+			}
+		}
+		return
+	}
+	m.mu.RLock()
+}
+
+func (m *verifRWMutex) TryLock() bool  { return m.mu.TryLock() }
+func (m *verifRWMutex) TryRLock() bool { return m.mu.TryRLock() }
+
+func (m *verifRWMutex) Unlock() {
+	m.mu.Unlock()
+	if h := VerifLock; h != nil {
+		h.Released(uintptr(unsafe.Pointer(m)))
+	}
+}
+
+func (m *verifRWMutex) RUnlock() {
+	m.mu.RUnlock()
+	if h := VerifLock; h != nil {
+		h.Released(uintptr(unsafe.Pointer(m)))
+	}
+}
+
+func (m *verifRWMutex) RLocker() sync.Locker { return rlocker{m} }
+
+type rlocker struct{ m *verifRWMutex }
+
+func (r rlocker) Lock()   { r.m.RLock() }
+func (r rlocker) Unlock() { r.m.RUnlock() }
 
 // VerifYield is the fine-grained preemption seam (rule R4).
 var VerifYield func(site int)
